@@ -472,14 +472,17 @@ Section KfdcRows.
         apply mem_ei_In in O1. pose proof (one_val WI a Hwc Hfr e i Hi HeE O1) as X1. rewrite <- Ex, X1. lra.
       + (* bit expansion *)
         cbn in HR.
-        assert (HC : Forall (sat_col a) (intprod_cols (pvar e i) 0%Q wm (num_bits wm))).
+        assert (HC : Forall (sat_col a) (intprod_cols (pvar e i) 0%Q (prod_ub I e) (num_bits (prod_ub I e)))).
         { apply Forall_forall. intros c Hc. apply (sat_cols_in a _ _ Hkc). unfold kfdc_cols. do 2 (apply in_or_app; right).
           apply in_flat_map. exists e. split; [exact He|]. apply in_flat_map. exists i. split; [exact Hi|].
           unfold prod_kind. rewrite Z0, O1. cbn. exact Hc. }
-        pose proof (proj1 (intprod_rows_sem (evar e i) (W i) (pvar e i) 0%Q wm (num_bits wm)
+        pose proof (proj1 (intprod_rows_sem (evar e i) (W i) (pvar e i) 0%Q (prod_ub I e) (num_bits (prod_ub I e))
                       ltac:(split; discriminate) ltac:(split; discriminate) ltac:(split; discriminate) a) (conj HC HR)) as S.
         cbn zeta in S. destruct S as (HB & HF & HX & HP).
-        pose proof (comps_value (a (W i)) 0%Q wm (kfdc_w_bounds i Hi) _ _ HB HF) as V.
+        assert (Wb : (0 <= a (W i) <= prod_ub I e)%Q).
+        { pose proof (kfdc_w_bounds i Hi) as [W0 W1]. split; [exact W0|]. unfold prod_ub.
+          destruct (c_scale_free I); [|exact W1]. pose proof (qmax_ge_l (kfdc_wmax I) (cap (kfdc_walk I) e)) as Hq. unfold wm in W1. lra. }
+        pose proof (comps_value (a (W i)) 0%Q (prod_ub I e) Wb _ _ HB HF) as V.
         rewrite <- HP, V, HX, Ex. reflexivity.
   Qed.
 
@@ -586,16 +589,16 @@ Qed.
 (* an SCC edge whose flow value lies strictly between 0 and 1 gets the repetition cap f(e) < 1, so no
    layer can use it and the model is infeasible (the formal content of finding "rep_cap_from_own_flow") *)
 Theorem kfdc_small_flow_infeasible (I : kfdc_inst) (a : var -> Q) e :
-  In e (kept_edges I) -> is_scc_edge (c_graph I) e = true -> In e (map fst (c_flow I)) ->
+  c_scale_free I = false -> In e (kept_edges I) -> is_scc_edge (c_graph I) e = true -> In e (map fst (c_flow I)) ->
   (0 < flow_of I e < 1)%Q -> ~ sat a (encode_kfdc I).
 Proof.
-  intros He Hscc Hfl [Hpos Hlt] Hsat.
+  intros Hsf He Hscc Hfl [Hpos Hlt] Hsat.
   pose proof (kfdc_flow_explained I a Hsat e He) as F.
   assert (Z0 : forall i, In i (layers (c_k I)) -> xint a i e = 0%Z).
   { intros i Hi. destruct (kfdc_cols_sat I a Hsat) as (Hc & _).
     destruct (edge_val (kfdc_walk I) a Hc i e Hi (kept_in_E I e He)) as (Ex & X0 & _ & U).
     assert (Ecap : cap (kfdc_walk I) e = flow_of I e).
-    { unfold cap. cbn [w_graph w_rep w_rep_default kfdc_walk]. rewrite Hscc. unfold flow_of.
+    { unfold cap. cbn [w_graph w_rep w_rep_default kfdc_walk]. rewrite Hscc. unfold flow_of, kfdc_rep. rewrite Hsf. cbn [andb].
       clear -Hfl. induction (c_flow I) as [|[e' q] l IH]; [destruct Hfl|]. cbn [lookup_q].
       destruct (edge_eqb e' e) eqn:Q; [reflexivity|]. apply IH. cbn [map fst] in Hfl. destruct Hfl as [->|Hfl]; [|exact Hfl].
       rewrite (proj2 (edge_eqb_eq e e) eq_refl) in Q. discriminate Q. }
